@@ -468,4 +468,43 @@ func lDirectedExtras(meta *Meta) {
 			}
 		}
 	}
+	// ---- a path item that is a reference, written with empty siblings or loaded with origins recorded ----
+	{
+		real := `{"get":{"operationId":"real","responses":{"200":{"description":"ok"}}}}`
+		for _, tc := range []struct{ name, alias string }{
+			{"bare", `{"$ref":"#/paths/~1real"}`}, {"empty parameters", `{"$ref":"#/paths/~1real","parameters":[]}`}, {"empty servers", `{"$ref":"#/paths/~1real","servers":[]}`},
+			{"external", `{"$ref":"items.json#/paths/~1thing"}`}, {"external, empty parameters", `{"$ref":"items.json#/paths/~1thing","parameters":[]}`},
+		} {
+			for _, origins := range []bool{false, true} {
+				root := `{"openapi":"3.0.3","info":{"title":"r","version":"1"},"paths":{"/alias":` + tc.alias + `,"/real":` + real + `}}`
+				store := map[string]string{"/api/root.json": root, "/api/items.json": `{"openapi":"3.0.3","info":{"title":"i","version":"1"},"paths":{"/thing":` + real + `}}`}
+				loader := openapi3.NewLoader()
+				loader.IsExternalRefsAllowed = true
+				loader.ReadFromURIFunc = func(_ *openapi3.Loader, u *url.URL) ([]byte, error) {
+					if d, ok := store[u.Path]; ok {
+						return []byte(d), nil
+					}
+					return nil, fmt.Errorf("not found: %s", u)
+				}
+				desc := map[string]any{"path_item": tc.alias, "include_origin": origins}
+				meta.Histogram["directed extras"]++
+				var doc *openapi3.T
+				var err error
+				openapi3.IncludeOrigin = origins
+				p := catchPanic(func() { doc, err = loader.LoadFromURI(&url.URL{Path: "/api/root.json"}) })
+				openapi3.IncludeOrigin = false
+				if p != nil {
+					viol("extras:panic", desc, fmt.Sprint(p))
+					continue
+				}
+				if err != nil {
+					viol("extras:path-item-reference-does-not-load", desc, err.Error())
+					continue
+				}
+				if it := doc.Paths.Value("/alias"); it == nil || it.Get == nil || it.Get.OperationID != "real" {
+					viol("extras:path-item-reference-left-unresolved", desc, "the path item /alias ("+tc.name+") has no GET operation after a successful load")
+				}
+			}
+		}
+	}
 }
